@@ -7,7 +7,7 @@ from vlib import strings as S
 
 ID = "C14"
 # look-alikes of prelude names (vlib/defs.py HOSTILE) this check's derives are immune to on the unchanged tree
-HOSTILE_OK = ['Default', 'From', 'Into', 'Result', 'Some', 'Ok', 'Iterator', 'Clone', 'AsRef', 'Send', 'PhantomData', 'IterGet', 'm_matches', 'm_assert', 'c_binders', 'no_implicit_prelude']
+HOSTILE_OK = ['Default', 'From', 'Into', 'Result', 'Some', 'Ok', 'Iterator', 'Clone', 'AsRef', 'Send', 'PhantomData', 'IterGet', 'm_matches', 'm_assert', 'c_binders', 'no_implicit_prelude', 'ByValue']
 PROP_FILE = "Props/C14.v"
 RULE = ("enums with 1-8 variants x kinds x {message, detailed_message} presence (all four combinations) x 0-4 doc lines (0-3 "
         "leading spaces, leading tab / NBSP / U+3000 / CR / newline (kept), empty lines, quotes, braces, non-ASCII, a block comment rendered as one multi-line doc attribute; docs "
